@@ -60,6 +60,11 @@ func genBytes(t *rapid.T, p *pool) []byte {
 				i := rapid.IntRange(0, len(b)-1).Draw(t, "bflip")
 				b[i] ^= 1 << uint(rapid.IntRange(0, 7).Draw(t, "bbit"))
 			}
+		case 3:
+			// a proper prefix of the pooled value (same leading bytes, other length)
+			if len(b) > 1 {
+				b = b[:rapid.IntRange(1, len(b)-1).Draw(t, "bprefix")]
+			}
 		}
 		return b
 	case k == 4:
